@@ -269,10 +269,11 @@ impl WmoParser {
         let n_doodad_defs = reader.read_u32_le()?;
         let n_doodad_sets = reader.read_u32_le()?;
         let color_bytes = reader.read_u32_le()?;
-        let flags = WmoFlags::from_bits_truncate(reader.read_u32_le()?);
 
-        // Skip some fields (depending on version)
-        reader.seek(SeekFrom::Current(8))?; // Skip bounding box - we'll calculate this from groups
+        // Skip the WMO id and the bounding box (calculated from the groups instead):
+        // the 16-bit flags are the second to last field of the 64-byte header
+        reader.seek(SeekFrom::Current(4 + 24))?;
+        let flags = WmoFlags::from_bits_truncate(reader.read_u16_le()? as u32);
 
         // Create color from bytes
         let ambient_color = Color {
